@@ -127,11 +127,12 @@ def geom_of(dc):
     """behavioural geometry of the real object: canvas, knots, per-pixel coordinates"""
     if not hasattr(dc, "knots"):
         return None
-    out = {"canvas": [int(dc.shape[1]), int(dc.shape[2])], "knots": [], "xa": [], "ya": []}
+    shape = getattr(dc, "shape", None)
+    out = {"canvas": [int(shape[1]), int(shape[2])] if shape is not None and len(shape) == 3 else None, "knots": [], "xa": [], "ya": []}
     for i in range(len(dc.knots)):
         k = np.asarray(dc.knots[i], dtype=float)
         out["knots"].append(k)
-        if 1 <= k.shape[-1] <= 4 and i < len(dc.interpolator):
+        if k.ndim == 3 and 1 <= k.shape[-1] <= 4 and i < len(getattr(dc, "interpolator", [])):
             xa, ya = dc.interpolator[i].transform_coordinates(dc.knots[i])
             out["xa"].append(np.asarray(xa, dtype=float))
             out["ya"].append(np.asarray(ya, dtype=float))
@@ -148,10 +149,14 @@ def same_objects(a, b):
         return False, {"has_knots": [ha, hb]}
     if not ha:
         return True, {}
-    if tuple(a.shape) != tuple(b.shape):
-        return False, {"shape": [list(a.shape), list(b.shape)]}
-    if len(a.knots) != len(b.knots) or len(a.interpolator) != len(b.interpolator):
-        return False, {"len": [len(a.knots), len(b.knots), len(a.interpolator), len(b.interpolator)]}
+    sa, sb = getattr(a, "shape", None), getattr(b, "shape", None)
+    if (sa is None) != (sb is None) or (sa is not None and tuple(sa) != tuple(sb)):
+        return False, {"shape": [None if sa is None else list(sa), None if sb is None else list(sb)]}
+    ia, ib = getattr(a, "interpolator", []), getattr(b, "interpolator", [])
+    if len(a.knots) != len(b.knots) or len(ia) != len(ib):
+        return False, {"len": [len(a.knots), len(b.knots), len(ia), len(ib)]}
+    if sa is None or len(ia) != len(a.knots):
+        return True, {}      # both objects equally incomplete (no canvas / interpolators yet)
     for i in range(len(a.knots)):
         ka, kb = np.asarray(a.knots[i]), np.asarray(b.knots[i])
         if ka.shape != kb.shape or not np.array_equal(ka, kb, equal_nan=True):
@@ -175,9 +180,11 @@ class FaultAt:
         self.k, self.exc, self.fired, self.calls = k, exc, False, 0
 
     def __enter__(self):
+        # both spellings a caller in drift.py can use: the name imported into the module and the attribute of imaging_utils
         import quantem.imaging.drift as dm
-        self.dm = dm
-        self.orig = dm.cross_correlation_shift
+        import quantem.core.utils.imaging_utils as iu
+        self.saved = []
+        orig = iu.cross_correlation_shift
 
         def wrapper(*a, **kw):
             i = self.calls
@@ -187,12 +194,16 @@ class FaultAt:
                 if self.exc == "KeyboardInterrupt":
                     raise KeyboardInterrupt(FAULT_MSG)
                 raise _Fault(FAULT_MSG)
-            return self.orig(*a, **kw)
-        dm.cross_correlation_shift = wrapper
+            return orig(*a, **kw)
+        for mod in (dm, iu):
+            if getattr(mod, "cross_correlation_shift", None) is orig:
+                self.saved.append((mod, orig))
+                setattr(mod, "cross_correlation_shift", wrapper)
         return self
 
     def __exit__(self, *a):
-        self.dm.cross_correlation_shift = self.orig
+        for mod, orig in self.saved:
+            setattr(mod, "cross_correlation_shift", orig)
         return False
 
 
@@ -451,7 +462,11 @@ def case_session(ctx, drv, d, case):
                 return
 
         # ---------------- the property itself, on the real object
-        if after is not None and cfg is not None and not drift and twin_ok is not None:
+        if after is not None and after["canvas"] is None:
+            ctx.pred_fail(f"session-raising-call-changed-state-{kind}", f"after {label} -> {out} the object has knots but no canvas shape (half-initialised geometry)",
+                          dict(case, failing_step=pos), observed="knots without shape", required="geometry unchanged by a call that raised")
+            return
+        if after is not None and cfg is not None and not drift:
             # before any drift has been estimated (only raising alignment calls so far): exact placement
             Hc, Wc = after["canvas"]
             scale = max(1.0, float(Hc), float(Wc))
@@ -524,7 +539,9 @@ def case_session(ctx, drv, d, case):
                             ctx.disagree("session-xy", dict(case, failing_step=pos, image=i), {"xa[0]": mx[0].tolist()}, {"xa[0]": after["xa"][i][0].tolist()},
                                          note=f"op {pos} ({label} -> {out}): coordsOf vs transform_coordinates(knots) (max diff {dxy:.3g})")
                             return
-            if out == "ok":
+            if out == "ok" and kind == "preprocess":
+                # attributes are compared right after a successful preprocess() only: which of them a REJECTED call has already
+                # assigned is an incidental detail (a rewrite that converts every argument before assigning any is harmless)
                 st = mo["state"]
                 for name, got in (("pad_fraction", getattr(dc, "_pad_fraction", None)), ("kde_sigma", getattr(dc, "_kde_sigma", None))):
                     mv = st[name]
